@@ -74,6 +74,8 @@ pub enum Profile {
     Queries,
     /// many groups alive at once, most of them holding unread data
     ManyGroups,
+    /// allocator-heavy, starting from a long contiguous run of explicitly added ids
+    Dense,
 }
 
 #[derive(Debug, Clone, Copy, PartialEq, Eq)]
@@ -117,6 +119,9 @@ impl Profile {
                 (Slice, 4), (Clone, 2), (SaveLoad, 2), (Script, 4),
             ],
             Profile::ManyGroups => &[(Add, 30), (Bind, 34), (Put, 26), (Data, 4), (NextIdAdd, 4), (Kids, 2)],
+            Profile::Dense => &[
+                (Add, 14), (Bind, 16), (Put, 12), (Data, 16), (NextId, 14), (NextIdAdd, 14), (Clone, 3), (Merge, 6), (Script, 4), (SaveLoad, 1),
+            ],
             Profile::Queries => &[
                 (Add, 18), (Bind, 30), (Put, 16), (Data, 12), (Slice, 8), (Kid, 4), (Kids, 4),
                 (NextIdAdd, 4), (Merge, 4),
@@ -141,10 +146,54 @@ impl Profile {
 pub fn data_bytes(len_sel: u16, content: u16) -> Vec<u8> {
     // length classes 0, 1–7, 8, 9, 10–40
     const L: [usize; 24] = [0, 0, 1, 2, 3, 5, 7, 7, 8, 8, 8, 9, 9, 9, 10, 15, 16, 17, 24, 40, 64, 255, 256, 300];
-    let len = L[idx(len_sel, L.len())];
-    (0..len)
+    // one slot in 480 is a datum larger than 64 KiB
+    let len = if idx(len_sel, L.len() * 20) == 7 { 66_000 } else { L[idx(len_sel, L.len())] };
+    let mut v: Vec<u8> = (0..len)
         .map(|i| (content as usize).wrapping_mul(31).wrapping_add(i * 37 + 1) as u8)
-        .collect()
+        .collect();
+    match content & 15 {
+        0 => v.iter_mut().for_each(|b| *b = 0),              // all zero bytes
+        1 => {
+            if let Some(b) = v.last_mut() {
+                *b = 0; // trailing zero byte
+            }
+        }
+        2 => {
+            if let Some(b) = v.first_mut() {
+                *b = 0x80 | *b; // "negative" first byte
+            }
+        }
+        3 => v.iter_mut().for_each(|b| *b = 0xFF),
+        _ => {}
+    }
+    v
+}
+
+/// A datum derived from the one a vertex holds: one trailing zero byte more or less, the
+/// same bytes again, the same length with one byte changed, one byte longer/shorter.
+pub fn data_variant(old: &[u8], sel: u16) -> Vec<u8> {
+    let mut v = old.to_vec();
+    match sel % 6 {
+        0 => v.push(0),
+        1 => {
+            v.pop();
+        }
+        2 => {}
+        3 => {
+            if let Some(b) = v.last_mut() {
+                *b ^= 0x01;
+            } else {
+                v.push(1);
+            }
+        }
+        4 => v.push(0xAB),
+        _ => {
+            if !v.is_empty() {
+                v.remove(0);
+            }
+        }
+    }
+    v
 }
 
 fn present_where(m: &Model, f: impl Fn(usize) -> bool) -> Vec<usize> {
@@ -173,6 +222,15 @@ fn small_tree(m: &Model, a: u16, b: u16, c: u16, d: u16) -> Option<Call> {
         return None;
     }
     let left = lefts[idx(d, lefts.len())];
+    if a & 0x4000 != 0 && m.n >= 8 && b & 3 == 0 {
+        // a wide right-hand vertex: a star with 8..=10 kids
+        let kids = 8 + (b as usize >> 2) % 3;
+        let mut nodes = vec![TNode { id: 0, parent: None, label: None, data: if c & 1 == 1 { Some(data_bytes(c, d)) } else { None }, read: false }];
+        for i in 0..kids.min(m.n) {
+            nodes.push(TNode { id: i + 1, parent: Some(0), label: Some(Lab::Alpha(20 + i as u64)), data: if (c >> (i + 1)) & 1 == 1 { Some(vec![i as u8; 2]) } else { None }, read: false });
+        }
+        return Some(Call::Merge { h: TreeSpec { cap: 12, nodes, extras: vec![] }, left });
+    }
     let labels = [Lab::Alpha(0), Lab::Str("foo".into()), Lab::Greek('x'), Lab::Str("bar".into())];
     let want = 1 + (a as usize & 7) % 5;
     let hcap = 8;
@@ -308,7 +366,7 @@ pub fn resolve(seed: &OpSeed, m: &Model, profile: Profile) -> Option<Call> {
                 }
             };
             let l = pick_label(m, x, d, rebind, &labels)?;
-            let parsed = d & 1 == 1;
+            let parsed = d & 1 == 1 && l.parse_roundtrips();
             let call = Call::Bind { a: x, b: y, l: l.clone(), parsed };
             if m.can_bind(x, y, &l) {
                 call
@@ -343,7 +401,12 @@ pub fn resolve(seed: &OpSeed, m: &Model, profile: Profile) -> Option<Call> {
             if cands.is_empty() {
                 return None;
             }
-            Call::Put(cands[idx(b, cands.len())], data_bytes(c, d))
+            let v = cands[idx(b, cands.len())];
+            // an overwrite is often a close variant of what the vertex holds
+            match &m.get(v).data {
+                Some(old) if d & 3 == 0 && old.len() < 400 => Call::Put(v, data_variant(old, d >> 2)),
+                _ => Call::Put(v, data_bytes(c, d)),
+            }
         }
         Kind::Data => {
             let class = idx(a, 8);
@@ -406,10 +469,10 @@ pub fn resolve(seed: &OpSeed, m: &Model, profile: Profile) -> Option<Call> {
                 return None;
             }
             let p = pres[idx(a, pres.len())];
-            // labels whose text parses back to themselves on the pinned grammar: ASCII only
+            // labels whose text parses back to themselves, without characters the script grammar reserves
             let ls: Vec<Lab> = labels
                 .iter()
-                .filter(|l| l.text().is_ascii() || matches!(l, Lab::Alpha(_)))
+                .filter(|l| l.parse_roundtrips() && !l.text().contains([',', ')', '(', ';', '#']))
                 .cloned()
                 .collect();
             Call::ScriptNew { parent: p, l: ls[idx(b, ls.len())].clone() }
@@ -529,6 +592,24 @@ pub fn prelude(profile: Profile, hs: &HistSeed, cfg: Cfg) -> Vec<Call> {
             if (hs.n_sel as usize >> (i % 7)) & 1 == 1 {
                 calls.push(Call::Put(i, data_bytes((i * 4099) as u16, hs.order_sel)));
             }
+        }
+        return calls;
+    }
+    if profile == Profile::Dense {
+        // a few allocator calls, then a contiguous run of explicit ids right at the allocator
+        // position (so that next_id() has to walk over it), some of it grouped and collected
+        // again later by the generated part
+        let pre = hs.order_sel as usize % 4;
+        let mut calls: Vec<Call> = (0..pre).map(|i| if (hs.n_sel >> i) & 1 == 1 { Call::NextIdAdd } else { Call::NextId }).collect();
+        let room = cfg.cap.saturating_sub(pre + 2);
+        let len = (4 + (hs.order_sel as usize >> 2) % 60).min(room);
+        for i in 0..len {
+            calls.push(Call::Add(pre + i));
+        }
+        // two of them form a group with a datum, so that a collection can free ids below the allocator
+        if len >= 2 {
+            calls.push(Call::Bind { a: pre, b: pre + 1, l: Lab::Alpha(0), parsed: false });
+            calls.push(Call::Put(pre + 1, vec![7; 3]));
         }
         return calls;
     }
